@@ -163,11 +163,15 @@ def _make_lease_publisher(world, script):
                                                     maximum_lease_time=timedelta(microseconds=item['ttl_us'])))
                     continue
 
-                def emit(item=item):
+                # a publisher that prepares its lease objects ahead of time and publishes them from a schedule
+                ready = DefinedLease(maximum_request_count=item['n'], maximum_lease_time=timedelta(microseconds=item['ttl_us'])) \
+                    if item.get('precreate') else None
+
+                def emit(item=item, ready=ready):
                     world.rec('pub', ep='endpoint', iid=None, role='lease', cb='emit', src='lease', n=item['n'],
                               ttl_us=item['ttl_us'])
-                    subscriber.on_next(DefinedLease(maximum_request_count=item['n'],
-                                                    maximum_lease_time=timedelta(microseconds=item['ttl_us'])))
+                    subscriber.on_next(ready or DefinedLease(maximum_request_count=item['n'],
+                                                             maximum_lease_time=timedelta(microseconds=item['ttl_us'])))
 
                 world.loop.call_at(item['at'], emit)
 
